@@ -208,6 +208,10 @@ def check_edit(lines0, prefix, t, kind, new_lines, expect, horizon, base_run, fi
                 out.append((f"C01:rejected-edit-affected-run:{kclass}", f"rejected edit '{kind}' at tick {t} changed the rest of the run"))
         run.cleanup()
         return out, "reject", q
+    if not rec["accepted"] and rec["error"] == "MethodEditError" and "macro" in str(rec.get("msg", "")).lower() \
+            and any(li["name"] == "Macro" for li in pgen.line_info(lines0)):
+        run.cleanup()
+        return out, "rejected-started-macro", q          # editing a macro that has started must be rejected (C41)
     if not rec["accepted"]:
         out.append((f"C01:rejected-valid-edit:{kclass}:{rec['error']}",
                     f"edit '{kind}' at tick {t} leaves every started line unchanged but was rejected: {rec.get('msg')}"))
@@ -251,6 +255,11 @@ def check_edit(lines0, prefix, t, kind, new_lines, expect, horizon, base_run, fi
                         f"(marks {proj['mark_counts']} vs {fproj['mark_counts']}, commands {proj['cmd_counts']} vs {fproj['cmd_counts']}, "
                         f"state {proj['state']} vs {fproj['state']})"))
             return out, "compared", q
+    if restarted(base_run, t, proj, fproj) and not [n for n, ph in proj["bad_life"] if "finalize" not in ph]:
+        out.append(("C01:restart-after-merge" if merge else "C01:restart-by-edit-after-merge",
+                    f"edit '{kind}' at tick {t}: the method restarted from its first line (marks {proj['mark_counts']}, commands "
+                    f"{proj['cmd_counts']}; fresh run of the final method {fproj['mark_counts']}, {fproj['cmd_counts']})"))
+        return out, "compared", q
     if proj["bad_life"]:
         # a command that was executing when the edit landed and is never finalized afterwards
         dropped = [n for n, ph in proj["bad_life"] if "finalize" not in ph]
